@@ -16,6 +16,23 @@ CHECKS = {
         "bound_text": "all 7x7 kind pairings, full 64-bit ints/float bit patterns (NaN, inf, -0 included); strings/arrays of length <= 2 (index laws: <= 3), array nesting 1",
         "assumptions": ["operands are well-formed values as built by the package's constructors", "shift semantics only pinned down for counts 0..63 (and non-negative left operand for >>); other counts: must yield an int without fault"],
     },
+    "C13": {
+        "runs": [
+            {"harness": ["lexer.VerifC13History", "lexer.VerifC13Step"], "pkgs": ["./lexer"],
+             "params_quick": {"ops": 4, "stepops": 2}, "params_thorough": {"ops": 6, "stepops": 3},
+             "covers": {"VerifC13History": ["ops-done"], "VerifC13Step": ["ops-done"]}},
+            {"harness": ["lexer.VerifC13Comb"], "pkgs": ["./lexer"], "params": {"textlen": 5, "starts": 2},
+             "covers": {"VerifC13Comb": ["accepted", "rejected"]}},
+            {"harness": ["lexer.VerifC13Comb"], "pkgs": ["./lexer"], "thorough_only": True,
+             "params": {"texts": 2, "starts": 3, "failuse": 3, "shape_lo": 0, "shape_hi": 21}},
+            {"harness": ["lexer.VerifC13Comb"], "pkgs": ["./lexer"], "thorough_only": True,
+             "params": {"texts": 2, "starts": 3, "failuse": 3, "shape_lo": 22, "shape_hi": 26}},
+            {"harness": ["lexer.VerifC13Comb"], "pkgs": ["./lexer"], "thorough_only": True,
+             "params": {"texts": 2, "starts": 3, "failuse": 3, "shape_lo": 27, "shape_hi": 28}},
+        ],
+        "bound_text": "5 token streams (0..7 tokens, one with a lexer error); histories of <=4 (quick) / <=6 (thorough) operations from a new lexer; 2..3 operations from any state satisfying the representation invariant (cursor and <=3 saved cursors symbolic); 28 combinator shapes (depth <= 3) over 3 stub sub-parsers that succeed/fail and consume 0..2 tokens as an arbitrary function of (stub, position)",
+        "assumptions": ["Commit/Rollback are only called after a matching Snapshot (the combinators' usage)", "Not is exercised only under Assert, as in the grammar", "stub sub-parsers consume at least one token when they succeed"],
+    },
     "C14": {
         "runs": [
             {"harness": ["lexer.VerifC14Lex", "lexer.VerifC14Layout"], "pkgs": ["./lexer"], "fuel": 200000,
@@ -37,6 +54,7 @@ CHECKS = {
 }
 
 LEVEL_TEXT = {
+    "C13": "TLexer and every combinator are executed symbolically from SSA. For the lexer the cursor and saved cursors of the pre-state are solver variables constrained only by the representation invariant, so one-step results cover histories of any length; combinators run over the real TLexer with sub-parser outcomes as solver-chosen functions of position and are compared with an ordered-choice reference recogniser (accept/reject, results, final position, snapshot depth).",
     "C11": "Every method of the value algebra is executed symbolically from its SSA with operand kinds forked and all 64-bit payloads (ints, float bit patterns incl. NaN/inf/-0, string bytes) left symbolic; each documented law is an assertion the solver must prove unsat-negated on every path, and every Go panic path must be infeasible. Bounded only in container length/nesting.",
     "C14": "Lexer.Next and all state functions are executed symbolically over every input of the stated length with all bytes symbolic; span/text/gap/grouping/line-break/end-marker laws and invariance under inserted blanks/comments are solver-decided assertions; non-termination shows up as fuel exhaustion and is confirmed by native timeout.",
     "C15": "The encode/decode functions are loop-free bit manipulation: the solver decides round-trip equality for all 2^64 addresses, all opcodes and operand kinds at full width (no unrolling), so within the stated argument ranges this is a complete decision, cross-checked by cvc5 on every assertion query.",
